@@ -235,6 +235,11 @@ class Interp:
                         return self.intern.names[k]
                     k += 1
                 return "zzForeign"
+            if v.kind == "int":
+                for k in range(-2, 130):               # deterministic order (replayable); values here are small counters / indices
+                    if self.decide(v.z == self.mkint(k)):
+                        return k
+                raise Unsupported("symbolic int outside the realisation range")
             raise Unsupported("cannot realise a symbolic %s" % v.kind)
         if isinstance(v, Alt):
             for g, x in v.alts:
@@ -410,6 +415,8 @@ class Interp:
         m = s.model().eval(v.z, model_completion=True)
         r = s.check(self.g, v.z != m)
         if r != z3.unsat:
+            if self.forking:
+                return self.realise(v)
             raise Unsupported("needs concrete %s but it is symbolic" % what)
         if v.kind == "int":
             return self.val(m)
@@ -481,6 +488,8 @@ class Interp:
         for a in list(args) + list(kwargs.values()):
             if has_sym(a) and not getattr(fn, "__self__", None).__class__ in NATIVE_OK_SELF:
                 raise Unsupported("native call %r with symbolic argument" % (fn,))
+            if isinstance(a, SymStr) and getattr(fn, "__name__", "") in ("format", "format_map", "join", "replace", "encode", "split"):
+                raise Unsupported("str.%s with opaque message text" % fn.__name__)
         try:
             return fn(*args, **kwargs)
         except Unsupported:
@@ -598,7 +607,22 @@ class Interp:
             else:
                 raise Unsupported("subscript store on %r" % type(obj))
         elif isinstance(t, (ast.Tuple, ast.List)):
-            vals = list(v)
+            vals = list(self.concrete(v, "unpacked value") if isinstance(v, Alt) else v)
+            stars = [i for i, e in enumerate(t.elts) if isinstance(e, ast.Starred)]
+            if len(stars) > 1:
+                raise Unsupported("two starred targets")
+            if stars:
+                i = stars[0]
+                after = len(t.elts) - i - 1
+                if len(vals) < len(t.elts) - 1:
+                    self.raise_(ValueError("not enough values to unpack"))
+                    return
+                for tt, vv in zip(t.elts[:i], vals[:i]):
+                    self.assign(tt, vv, fr)
+                self.assign(t.elts[i].value, self.born(list(vals[i:len(vals) - after])), fr)
+                for tt, vv in zip(t.elts[i + 1:], vals[len(vals) - after:]):
+                    self.assign(tt, vv, fr)
+                return
             if len(vals) != len(t.elts):
                 self.raise_(ValueError("unpack"))
                 return
@@ -951,6 +975,8 @@ class Interp:
                 parts.append(v.value)
             else:
                 x = self.ev(v.value, fr)
+                if self.forking and has_sym(x):
+                    x = self.realise(x)             # path-wise mode: message text is built for real
                 if has_sym(x) or isinstance(x, SymStr):
                     symbolic = True
                 else:
@@ -970,6 +996,8 @@ class Interp:
             if obj.kind == "name" and attr in SYM_STR_METHODS:
                 return SymMethod(obj, attr)
             raise Unsupported("attribute %s of symbolic scalar" % attr)
+        if isinstance(obj, SymStr):
+            raise Unsupported("method %s of opaque message text" % attr)
         cls_attr = inspect.getattr_static(type(obj), attr, None) if not isinstance(obj, (type, types.ModuleType)) else None
         if isinstance(cls_attr, property):
             return self.call(cls_attr.fget, [obj], {})
@@ -1112,6 +1140,12 @@ class Interp:
         return self.binop(n.op, self.ev(n.left, fr), self.ev(n.right, fr))
 
     def binop(self, op, a, b):
+        if isinstance(a, SymStr) or isinstance(b, SymStr):
+            if isinstance(op, ast.Add) and isinstance(a, (str, SymStr)) and isinstance(b, (str, SymStr)):
+                return SymStr()             # concatenation of message text stays opaque (cannot raise)
+            raise Unsupported("operator %s on opaque message text (may raise depending on the text)" % type(op).__name__)
+        if isinstance(op, ast.Mod) and isinstance(a, str) and has_sym(b):
+            raise Unsupported("%-formatting with symbolic text")
         if not has_sym(a) and not has_sym(b):
             try:
                 return _BIN[type(op)](a, b)
